@@ -174,6 +174,14 @@ def run_case(job):
   except Exception as e:  # pylint: disable=broad-except
     out['error'] = '%s: %s' % (type(e).__name__, e)
     out['error_kind'] = 'exception'
+    from . import load as _load
+    if isinstance(e, _load.Missing):
+      out['error'] = str(e)
+      out['error_kind'] = 'missing'
+    elif isinstance(e, AttributeError) and "module 'tensorflow_lattice." in str(e) and "has no attribute '_" in str(e):
+      # a private helper the case calls by name was renamed / inlined: undecided here, not a checker crash
+      out['error'] = 'function %s not found in the working tree' % str(e).split("has no attribute ")[-1].strip("'")
+      out['error_kind'] = 'missing'
     out['trace'] = traceback.format_exc()[-4000:]
   out['wall'] = time.time() - t0
   return out
